@@ -147,14 +147,25 @@ def run_world(ctx, wd):
     world = grammar.build_world(wd)
     cls = world.cls
     ctor_kw = populated_kwargs(world)
+    if any("init" in c["opts"] for c in wd["classes"]):
+        # (with an init=False class in the ancestry the constructor in force may belong to a grandparent: only what it advertises)
+        try:
+            cls.__spec_class__  # (a lazily bootstrapped class has no constructor of its own before this)
+            adv = inspect.signature(cls.__init__).parameters
+        except (TypeError, ValueError):
+            adv = {}
+        if not any(p.kind is p.VAR_KEYWORD for p in adv.values()) or cls.__init__ is object.__init__:
+            ctor_kw = {k: v for k, v in ctor_kw.items() if k in adv}
 
     def receiver():
         return ops.construct(world, {"t": "new", "k": ctor_kw})
 
     try:
         receiver()
-    except ops.CLEAN:
-        ctx.count("receiver_not_constructible")
+    except ops.CLEAN as e:
+        # every keyword is an init-enabled attribute of the class (advertised by the constructor) with a conforming value
+        ctx.fail(f"__init__|init|advertised_keywords_refused:{type(e).__name__}", {"world": wd, "method": "__init__", "test": ["ctor", ctor_kw]},
+                 f"{cls.__name__}(**{ctor_kw}) matches the advertised signature {inspect.signature(cls.__init__)} but raised {e!r}")
         return
     for mname, kind, attr, nested in methods_of(world):
         fn = getattr(cls, mname, None)
@@ -265,6 +276,9 @@ def check_method(ctx, world, wd, mname, kind, attr, nested, params, receiver):
             return False
         coll = list(getattr(v1, attr))
         want = world.realize(new)
+        how = world.prepare_kind(attr, item=True)
+        if how and not isinstance(new, list):
+            want = grammar.apply_preparer(how, want)  # (the element preparer in force for the instance class)
         if len(coll) != 3 or not _eq(coll[0], want):
             ctx.fail(f"reach|_index|{kind}|position", test, f"{mname}(item, _index=0, _insert=True): collection is {coll!r}")
             return False
@@ -456,7 +470,21 @@ def _locate(world, kind, attr, result, kw, hint=None):
 
 @st.composite
 def world_strategy(draw):
-    return grammar.gen_world(grammar.HypSource(draw), PROFILE)
+    src = grammar.HypSource(draw)
+    wd = grammar.gen_world(src, PROFILE)
+    if src.chance(1, 5):
+        # a spec-class ancestor declared with init=False ("completely remove the generated __init__"): the instance class
+        # still advertises - and must accept - the attributes it inherits from it
+        by_name = {c["name"]: c for c in wd["classes"]}
+        anc, todo = [], list(by_name[wd["instance_class"]]["bases"])
+        while todo:
+            c = by_name[todo.pop()]
+            todo.extend(c["bases"])
+            if c["kind"] == "spec":
+                anc.append(c)
+        if anc and by_name[wd["instance_class"]]["kind"] == "spec":  # (a plain instance class would merely inherit an older constructor)
+            src.pick(anc)["opts"]["init"] = False
+    return wd
 
 
 BOUNDS = {"quick": dict(examples=25, units=16), "thorough": dict(examples=300, units=16)}
@@ -473,8 +501,11 @@ def run_unit(ctx, unit):
 
 def replay(ctx, case):
     # a replay re-checks the whole method of the stored world (the failing test is among them)
+    if (case.get("test") or [None])[0] == "ctor":
+        return run_world(ctx, case["world"])
     world = grammar.build_world(case["world"])
     cls = world.cls
+    cls.__spec_class__
     ctor_kw = populated_kwargs(world)
     for mname, kind, attr, nested in methods_of(world):
         if mname != case["method"]:
